@@ -239,7 +239,9 @@ def unpack_items(tier):
     out = [{"id": "unpack-K%d-%dx%d" % (k, a, b), "entry": "HarnessUnpackSafety", "params": {"K": k, "nName": a, "nLink": b}, "shards": sh, "_w": 50} for (k, a, b, sh) in cfg]
     if tier == "quick":
         seg = [("HarnessUnpackSeg", {"K": 1, "sName": 2, "sLink": 4}, 6), ("HarnessUnpackSeg", {"K": 2, "sName": 1, "sLink": 2}, 8),
-               ("HarnessUnpackStep", {"K": 1, "sName": 2, "sLink": 1, "sPre": 2}, 8)]
+               ("HarnessUnpackStep", {"K": 1, "sName": 2, "sLink": 1, "sPre": 2}, 8),
+               ("HarnessUnpackStep", {"K": 1, "sName": 2, "sLink": 1, "sPre": 1, "nDst": 6}, 8),
+               ("HarnessUnpackStep", {"K": 2, "sName": 1, "sLink": 1, "sPre": 1}, 10)]
     else:
         seg = [("HarnessUnpackSeg", {"K": 1, "sName": 4, "sLink": 5}, 16), ("HarnessUnpackSeg", {"K": 2, "sName": 3, "sLink": 4}, 16), ("HarnessUnpackSeg", {"K": 3, "sName": 2, "sLink": 3}, 16),
                ("HarnessUnpackStep", {"K": 1, "sName": 4, "sLink": 3, "sPre": 4}, 16), ("HarnessUnpackStep", {"K": 2, "sName": 3, "sLink": 3, "sPre": 3}, 16)]
@@ -255,7 +257,7 @@ CHECKS["C01"] = {
     "explanation": "entry sequences x names x link targets are symbolic; the monitor is the model filesystem's mutation log compared segment-wise with dst; natively: before/after snapshot of the arena around dst",
     "anchors": ["(*github.com/hashicorp/go-slug.Packer).Unpack", "github.com/hashicorp/go-slug/internal/unpackinfo.NewUnpackInfo", "(*github.com/hashicorp/go-slug.Packer).validSymlink",
                 "(github.com/hashicorp/go-slug/internal/unpackinfo.UnpackInfo).RestoreInfo"],
-    "bounds": {"quick": "raw byte names: K=1 entry name 0..4 bytes, link target 0..5 bytes; K=2: 0..2 / 0..2; 6 type flags, mode 9 free bits. Segment-structured (names of 1 free byte, segments name/../././empty, optional leading slash): K=1 name <=2 segments, target <=4; K=2 name 1, target <=2. Inductive step: destination already holding one arbitrary symlink (target <=2 segments, absolute or not) and maybe a directory, then one entry (name <=2 segments, target <=1). dst=/w/d (absolute, clean) with sibling /w/d2, victim files and directory",
+    "bounds": {"quick": "raw byte names: K=1 entry name 0..4 bytes, link target 0..5 bytes; K=2: 0..2 / 0..2; 6 type flags, mode 9 free bits. Segment-structured (names of 1 free byte, segments name/../././empty, optional leading slash): K=1 name <=2 segments, target <=4; K=2 name 1, target <=2. Inductive step (also with 6 spellings of dst: doubled slash, dot segments, trailing slash, via ..; and with K=2 single-segment entries): destination already holding one arbitrary symlink (target <=2 segments, absolute or not) and maybe a directory, then one entry (name <=2 segments, target <=1). dst=/w/d (absolute, clean) with sibling /w/d2, victim files and directory",
                "thorough": "raw: K=1: 0..7 / 0..7; K=2: 0..4 / 0..4; K=3: 0..2 / 0..2; segments: K=1 (4,5), K=2 (3,4), K=3 (2,3); step: K=1 (name 4, pre-link 4), K=2 (3,3)"},
     "assumptions": A_COMMON + ["A-tar: archive/tar + gzip deliver the headers written (names without NUL); byte-level stream corruption is outside", "vfs: root privileges, ELOOP after 8 hops, closed world /w"],
     "groups": [
@@ -315,13 +317,12 @@ CHECKS["C19"]["groups"].append(
 
 # C04 also runs the whole-Unpack harnesses (its assertions are tagged C04-)
 def unpack_items_c04(tier):
-    its = [dict(it) for it in unpack_items(tier) if "step" not in it["id"]]
-    return its
+    return [dict(it) for it in unpack_items(tier)]
 
 
 CHECKS["C04"]["groups"].append(
     slug_group("unpack", ["harness/slug/unpack.go"], quick=unpack_items_c04("quick"), thorough=unpack_items_c04("thorough"),
-               reach=["unpack-ok", "link-created"], sample_every=60))
+               reach=["unpack-ok", "link-created", "step-done"], sample_every=60))
 CHECKS["C04"]["bounds"]["quick"] += "; whole Unpack: K=1 entry name 0..4 / target 0..5 bytes, K=2 0..2 / 0..2, segment-structured names (<=2 segments) and targets (<=4 segments) for K=1, (1,2) for K=2"
 CHECKS["C04"]["bounds"]["thorough"] += "; whole Unpack as C01 thorough"
 CHECKS["C04"]["anchors"] += ["(*github.com/hashicorp/go-slug.Packer).Unpack"]
@@ -643,3 +644,14 @@ CHECKS["C16"]["groups"][0]["quick"] += [{"id": "overlap", "entry": "HarnessC16Ov
 CHECKS["C16"]["groups"][0]["reach"] += ["overlapping-call"]
 CHECKS["C16"]["bounds"]["quick"] += "; two Pack calls on one Packer overlapping at the granularity of output writes (second call runs when the first first writes; 12 x 12 rule files)"
 CHECKS["C16"]["level_note"] = CHECKS["C16"]["level_note"].replace("Concurrent Pack calls (goroutine schedules, data races) are not addressable by this technique and are not claimed.", "Concurrent Pack calls are covered only at the granularity of output writes (a second call on the same Packer runs to completion when the first call first writes to its output); goroutine schedules below that, data races and the memory model are not addressable by this technique and are not claimed.")
+
+CHECKS["C05"]["groups"][0]["quick"] += [{"id": "reuse", "entry": "HarnessC05Reuse", "params": {"nLink": 6}, "shards": 6, "_w": 40}]
+CHECKS["C05"]["groups"][0]["reach"] = CHECKS["C05"]["groups"][0]["reach"] + ["second-pack"]
+CHECKS["C05"]["bounds"]["quick"] += "; one Packer with the relative allow-list entry '../e' used for two roots (/w/s then /w/q/r): first tree's link target 1..6 free bytes, second tree's link from 5 targets"
+C06_SRC_Q += ["https://{1}example.com/a.tgz", "git::https://{1}@example.com/r.git", "https://example.com/a?{1}archive=tar.gz&archive=tar.gz", "https://example.com/a?archive=tar.gz&{a1}=tar.gz"]
+CHECKS["C06"]["groups"][0]["quick"] += tmpl_items("src2", "HarnessC06Source", C06_SRC_Q[-4:])
+C07_REJECT += ["git::https://@example.com/r.git", "https://@example.com/a.tgz", "https://:@example.com/a.tgz", "https://example.com/a?archive=tgz&checksum={a1}", "https://example.com/a?checksum={a1}&archive=tar.gz",
+               "git::https://example.com/r.git?ref=m&{a1}=a;b", "https://example.com/a.tgz?checksum=x%z{a1}", "git::ssh://example.com/r.git//s?depth=%z{a1}"]
+CHECKS["C07"]["groups"][0]["quick"] += tmpl_items("rej2", "HarnessC07Parse", C07_REJECT[-8:], params={"mustReject": 1})
+CHECKS["C08"]["groups"][0]["quick"] = build_items("quick") + [{"id": "build-f2", "entry": "HarnessBuild", "params": {"nPkg": 1, "nDeps": 1, "nReg": 0, "nAdds": 2, "relative": 1, "finders": 2}, "shards": 6, "_w": 40, "no_hang": True, "max_steps": 3000000}]
+CHECKS["C14"]["groups"][0]["quick"] = CHECKS["C08"]["groups"][0]["quick"]
